@@ -73,7 +73,17 @@ def run(tier, seed):
     wd = vf.scratch()
     vf.require_clean(vf.tlc(wd, "EncodingsTest.tla", "EncodingsTest.cfg", workers=1, jvm=JVM, extra=["-noGenerateSpecTE"]),
                      "Encodings.tla self-checks")
-    scenarios = c01.generate(wd, quick, seed, 30 if quick else 400)
+    base = c01.generate(wd, quick, seed, 30 if quick else 400)
+    # every history gets one write path in turn; histories with dictionary encoding are also run through the
+    # verbatim copy path (copied chunks with a dictionary page have their own offset arithmetic)
+    scenarios = []
+    for i, s in enumerate(base):
+        s["path"] = ["direct", "copy", "reencode"][i % 3]
+        scenarios.append(s)
+        if s["cfg"]["enc"] == "dict" and s["path"] != "copy":
+            scenarios.append(dict(s, path="copy"))
+    for i, s in enumerate(scenarios):
+        s["id"] = i + 1
     events = execute(vh, wd, scenarios, seed, "all")
     cnt, bad, states = judge(wd, events, "f")
     vf.log(f"[C02] {len(scenarios)} histories, V: {cnt}")
